@@ -47,6 +47,11 @@ pub struct Case {
     /// how EXT_TIME carries the SCT (fdtxml::SCT_FORM): 0 High+Low, 1 High only, 2 High+Low+ERT, 3 High+SLC
     #[serde(default)]
     pub sct_form: u8,
+    /// before anything else the session receives an unrelated packet at a receiver time this many seconds LATER
+    /// than the first event's: the receiver clock is then stepped back (an NTP correction). Only the clock readings
+    /// at the FDT's and the object's arrival enter the estimate, so the outcome must not change
+    #[serde(default)]
+    pub pre_step_back: i64,
 }
 
 const S0: u64 = EPOCH_2027 + 86_400; // sender time when the (last packet of the) FDT is sent
@@ -245,6 +250,12 @@ fn run_case_inner(c: &Case) -> Outcome {
                 let _ = rx.push(&other, &fdt_packets(TSI, 3, xml.as_bytes(), 8192, None, None).remove(0), unix(*t + c.offset));
             }
         }
+        if c.pre_step_back != 0 {
+            if let Some((t, _)) = evs.first() {
+                let p = obj_packets(99, false, &[1, 2, 3]).remove(0);
+                let _ = rx.push(&endpoint(), &p, unix(*t + c.offset + c.pre_step_back));
+            }
+        }
         for (t, ev) in &evs {
             let now = unix(*t + c.offset);
             match ev {
@@ -354,22 +365,27 @@ pub fn run(thorough: bool) -> i32 {
                                 continue;
                             }
                             for (multi, spread) in [(false, 0i64), (true, 1), (true, 40)] {
-                                cases.push(Case { sct_minus_expires: d, sct_present, offset, check, timing, obj_est_minus_expires: g, multi, spread, second_session: false, far_expires: false, repeat_fdt: false, receive_twice: false, sct_form: 0 });
+                                cases.push(Case { sct_minus_expires: d, sct_present, offset, check, timing, obj_est_minus_expires: g, multi, spread, second_session: false, far_expires: false, repeat_fdt: false, receive_twice: false, sct_form: 0, pre_step_back: 0 });
+                                if !multi {
+                                    for pre_step_back in [20i64, 7200] {
+                                        cases.push(Case { sct_minus_expires: d, sct_present, offset, check, timing, obj_est_minus_expires: g, multi, spread, second_session: false, far_expires: false, repeat_fdt: false, receive_twice: false, sct_form: 0, pre_step_back });
+                                    }
+                                }
                                 if sct_present && spread <= 1 {
                                     for sct_form in 1..=3u8 {
-                                        cases.push(Case { sct_minus_expires: d, sct_present, offset, check, timing, obj_est_minus_expires: g, multi, spread, second_session: false, far_expires: false, repeat_fdt: false, receive_twice: false, sct_form });
+                                        cases.push(Case { sct_minus_expires: d, sct_present, offset, check, timing, obj_est_minus_expires: g, multi, spread, second_session: false, far_expires: false, repeat_fdt: false, receive_twice: false, sct_form, pre_step_back: 0 });
                                     }
                                 }
                                 if !multi && matches!(timing, 0 | 3) {
                                     for receive_twice in [false, true] {
-                                        cases.push(Case { sct_minus_expires: d, sct_present, offset, check, timing, obj_est_minus_expires: g, multi, spread, second_session: false, far_expires: false, repeat_fdt: true, receive_twice, sct_form: 0 });
+                                        cases.push(Case { sct_minus_expires: d, sct_present, offset, check, timing, obj_est_minus_expires: g, multi, spread, second_session: false, far_expires: false, repeat_fdt: true, receive_twice, sct_form: 0, pre_step_back: 0 });
                                     }
                                 }
                                 if !check && !multi && timing <= 2 {
-                                    cases.push(Case { sct_minus_expires: d, sct_present, offset, check, timing, obj_est_minus_expires: g, multi, spread, second_session: false, far_expires: true, repeat_fdt: false, receive_twice: false, sct_form: 0 });
+                                    cases.push(Case { sct_minus_expires: d, sct_present, offset, check, timing, obj_est_minus_expires: g, multi, spread, second_session: false, far_expires: true, repeat_fdt: false, receive_twice: false, sct_form: 0, pre_step_back: 0 });
                                 }
                                 if !multi {
-                                    cases.push(Case { sct_minus_expires: d, sct_present, offset, check, timing, obj_est_minus_expires: g, multi, spread, second_session: true, far_expires: false, repeat_fdt: false, receive_twice: timing == 4, sct_form: 0 });
+                                    cases.push(Case { sct_minus_expires: d, sct_present, offset, check, timing, obj_est_minus_expires: g, multi, spread, second_session: true, far_expires: false, repeat_fdt: false, receive_twice: timing == 4, sct_form: 0, pre_step_back: 0 });
                                 }
                             }
                         }
